@@ -29,6 +29,11 @@ CHECKS = {
          "Tens of thousands of random static-shape programs go through generate_numpy_like with real NumPy as the array module; generation may refuse with a not-supported error (counted), otherwise the call must succeed, every output must have NumPy's shape and values (exact for int/bool, Monte-Carlo-arithmetic tolerance otherwise), the function's parameters must be user input / bound names only and bound values must be the wrapped objects, unmodified.",
          "Real NumPy stands in for the NumPy-compatible module; JAX is not installed, so jax-specific behaviour is not observed. Result-dtype-only deviations are counted, not judged (they follow from C03 findings).",
          "DESIGN.md §3 C14"),
+ "C07": ("exploration",
+         "metamorphic runtime oracle: compiled outputs of one program under many tag assignments (implementation strategies, naming tags, user tags on arrays/axes/reductions, all-stripped) vs the untagged baseline and the NumPy shadow; kernel-structure monitor proving the tags took effect",
+         "Each program is generated, compiled and executed once untagged and then under 6-14 tag assignments; a variant must keep output names, declared shapes/dtypes and agree with the baseline to 8 ulp. Only variants whose kernel structure (temporaries, substitution rules, instructions, iname/argument tags, names) differs from the baseline count as non-trivial. Failing assignments are minimised and keyed by (tag kind @ node op).",
+         "As C01. ImplementationStrategy tags are unique per array, so at most one strategy per node. Named collisions (ValueError) are legal outcomes.",
+         "DESIGN.md §3 C07"),
 }
 
 NOT_YET = {
